@@ -8,6 +8,7 @@ import (
 	"testing"
 
 	"github.com/Fantom-foundation/lachesis-base/inter/idx"
+	"github.com/Fantom-foundation/lachesis-base/inter/pos"
 	"pgregory.net/rapid"
 
 	"verif/harness/internal/cons"
@@ -87,6 +88,41 @@ func prop(t *rapid.T) {
 			multiFrameUndecided++
 		}
 	}
+	// sometimes the running instance has first tried the first epoch with outdated weights for the same validators
+	// (until an event was rejected, or to the end), and was then Reset to the same epoch with the right ones: whatever
+	// it remembers from that attempt must not matter, a restarted copy has never seen it
+	staleAttempt := false
+	if len(first.IDs) >= 2 && rapid.IntRange(0, 3).Draw(t, "staleWeightsAttempt") == 0 {
+		vb := pos.NewBuilder()
+		for _, id := range first.IDs {
+			vb.Set(id, pos.Weight(rapid.Uint32Range(1, 9).Draw(t, "outdatedWeight")))
+		}
+		if err := main.L.Reset(idx.Epoch(first.Epoch), vb.Build()); err != nil {
+			t.Fatalf("Reset (outdated weights): %v", err)
+		}
+		seal := main.Seal
+		main.Seal = nil
+		for _, i := range dagen.GenOrder(t, first, "staleAttemptOrder") {
+			e := first.Evs[i]
+			if err := main.Process(first.DagEvent(e, e.Frame)); err != nil || len(main.Crits) > 0 {
+				break
+			}
+		}
+		main.Seal = seal
+		if len(main.Crits) > 0 {
+			// the outdated weights made the forkers too heavy: start over with a fresh instance
+			main, err = cons.New(cons.NewEvents(), cfgMain, idx.Epoch(sc.FirstEpoch), first.Validators(), scen.SealFn(sc))
+			if err != nil {
+				t.Fatalf("bootstrap: %v", err)
+			}
+		} else {
+			if err := main.L.Reset(idx.Epoch(first.Epoch), first.Validators()); err != nil {
+				t.Fatalf("Reset (right weights): %v", err)
+			}
+			main.Blocks = nil
+			staleAttempt = true
+		}
+	}
 	restartAt("before the first event", false, false)
 	for k, plan := range sc.Epochs {
 		ref := plan.Ref
@@ -136,6 +172,9 @@ func prop(t *rapid.T) {
 		}
 	}
 	classes := []string{"cfg_restart_" + cfgRestart.Name, fmt.Sprintf("epochs_%d", len(sc.Epochs))}
+	if staleAttempt {
+		classes = append(classes, "epoch_first_tried_with_outdated_weights")
+	}
 	if window > 1000 {
 		classes = append(classes, "followed_to_the_end")
 	}
